@@ -53,6 +53,17 @@ pub struct RecId {
 /// Parses a byte stream into whole records; Err(offset) when the stream is not a concatenation of
 /// whole, uncorrupted records.
 pub fn parse_stream(b: &[u8]) -> Result<Vec<RecId>, usize> {
+    parse_stream_with(b, true)
+}
+
+/// The record without its final newline (an encoder whose output does not end in a line break).
+pub fn record_text_unterminated(tid: u16, seq: u32, len: usize) -> String {
+    let mut s = record_text(tid, seq, len);
+    s.pop();
+    s
+}
+
+pub fn parse_stream_with(b: &[u8], terminated: bool) -> Result<Vec<RecId>, usize> {
     let mut out = vec![];
     let mut i = 0;
     while i < b.len() {
@@ -66,14 +77,15 @@ pub fn parse_stream(b: &[u8]) -> Result<Vec<RecId>, usize> {
         }
         let len = len as usize;
         let start = i + 22;
-        if start + len + 1 > b.len() {
+        let t = if terminated { 1 } else { 0 };
+        if start + len + t > b.len() {
             return Err(i);
         }
-        if b[start..start + len] != *payload(tid as u16, seq as u32, len).as_bytes() || b[start + len] != b'\n' {
+        if b[start..start + len] != *payload(tid as u16, seq as u32, len).as_bytes() || (terminated && b[start + len] != b'\n') {
             return Err(i);
         }
         out.push(RecId { tid: tid as u16, seq: seq as u32, len });
-        i = start + len + 1;
+        i = start + len + t;
     }
     Ok(out)
 }
@@ -134,6 +146,31 @@ pub fn make_roller(dir: &Path, r: &RollSpec) -> anyhow::Result<Box<dyn Roll>> {
         RollSpec::Delete => Box::new(DeleteRoller::new()),
         RollSpec::Fixed { base, count, pattern } => Box::new(FixedWindowRoller::builder().base(*base).build(&format!("{}/{}", dir.display(), pattern), *count)?),
     })
+}
+
+/// A user-defined roller around the real one: fails on scripted calls (leaving the file in place).
+#[derive(Debug)]
+pub struct FlakyRoller {
+    pub inner: Box<dyn Roll>,
+    pub fail: Vec<bool>,
+    pub calls: AtomicUsize,
+    pub failures: Arc<AtomicUsize>,
+}
+
+impl Roll for FlakyRoller {
+    fn roll(&self, file: &Path) -> anyhow::Result<()> {
+        let i = self.calls.fetch_add(1, Ordering::SeqCst);
+        if self.fail.get(i).copied().unwrap_or(false) {
+            self.failures.fetch_add(1, Ordering::SeqCst);
+            anyhow::bail!("verif: scripted roller failure #{}", i);
+        }
+        self.inner.roll(file)
+    }
+}
+
+pub fn make_flaky_policy(dir: &Path, t: &TrigSpec, r: &RollSpec, fail: &[bool], failures: &Arc<AtomicUsize>) -> anyhow::Result<Box<dyn Policy>> {
+    let roller = FlakyRoller { inner: make_roller(dir, r)?, fail: fail.to_vec(), calls: AtomicUsize::new(0), failures: failures.clone() };
+    Ok(Box::new(CompoundPolicy::new(make_trigger(t), Box::new(roller))))
 }
 
 pub fn make_policy(dir: &Path, t: &TrigSpec, r: &RollSpec) -> anyhow::Result<Box<dyn Policy>> {
